@@ -74,6 +74,112 @@ func c16Run(r *ev.Run, s c16Session, record bool) (msgs []e2e.Msg) {
 	if res, err := env.Sys.TransactRef(setup); err != nil || len(res) != len(setup) {
 		panic(fmt.Sprint("setup failed", res, err))
 	}
+	// "+ids": the proxy makes the in-tree server (which never recognises a transaction id and never sends update3) behave
+	// like ovsdb-server for monitor_cond_since: every transaction gets an id, update2 notifications go out as update3 with
+	// that id, and a monitor_cond_since request naming a known id is answered found=true with the difference since then
+	ids := strings.HasSuffix(s.Method, "+ids")
+	method := strings.TrimSuffix(s.Method, "+ids")
+	type snap struct {
+		id string
+		st *rm.DB
+	}
+	var idMu sync.Mutex
+	var hist []snap
+	pending := ""
+	begin := func() {
+		idMu.Lock()
+		pending = fmt.Sprintf("dddddddd-0000-0000-0000-%012d", len(hist)+1)
+		idMu.Unlock()
+	}
+	commit := func() {
+		// the server holds its transaction lock from the first operation to the commit, notifications included: a read-only
+		// transaction of our own returns only once an earlier transaction whose caller was cut off has been committed
+		_, _ = env.Sys.TransactRef([]rm.Op{{Op: "select", Table: "RW"}})
+		st := env.Sys.State()
+		idMu.Lock()
+		hist = append(hist, snap{pending, st})
+		idMu.Unlock()
+	}
+	txn := func(ops []rm.Op) ([]ovsdb.OperationResult, error) {
+		begin()
+		res, err := env.Sys.TransactRef(ops)
+		commit()
+		return res, err
+	}
+	begin()
+	commit() // the contents after the setup
+	if ids {
+		px.Rewrite = func(m e2e.Msg) json.RawMessage {
+			if m.Dir != "s2c" {
+				return nil
+			}
+			if m.Method == "update2" {
+				var n struct {
+					Params []json.RawMessage `json:"params"`
+				}
+				if json.Unmarshal(m.Raw, &n) != nil || len(n.Params) != 2 {
+					return nil
+				}
+				idMu.Lock()
+				id := pending
+				idMu.Unlock()
+				b, _ := json.Marshal(map[string]interface{}{"id": json.RawMessage(m.ID), "method": "update3", "params": []interface{}{n.Params[0], id, n.Params[1]}})
+				return b
+			}
+			if !m.IsResp {
+				return nil
+			}
+			for _, q := range px.Messages() {
+				if q.Conn != m.Conn || q.Dir != "c2s" || q.ID != m.ID || q.Method != "monitor_cond_since" {
+					continue
+				}
+				var req struct {
+					Params []json.RawMessage `json:"params"`
+				}
+				var rep struct {
+					Result []json.RawMessage `json:"result"`
+					Error  json.RawMessage   `json:"error"`
+				}
+				if json.Unmarshal(q.Raw, &req) != nil || len(req.Params) != 4 || json.Unmarshal(m.Raw, &rep) != nil || len(rep.Result) != 3 {
+					return nil
+				}
+				var last string
+				var reqs map[string]json.RawMessage
+				_ = json.Unmarshal(req.Params[3], &last)
+				_ = json.Unmarshal(req.Params[2], &reqs)
+				var tables []string
+				for t := range reqs {
+					tables = append(tables, t)
+				}
+				sort.Strings(tables)
+				idMu.Lock()
+				cur := hist[len(hist)-1]
+				var known *snap
+				for i := range hist {
+					if hist[i].id == last {
+						known = &hist[i]
+					}
+				}
+				idMu.Unlock()
+				var result []interface{}
+				if known != nil {
+					result = []interface{}{true, cur.id, diffUpdates2(ref, known.st, cur.st, tables)}
+					r.Add("monitor_cond_since_found_true", 1)
+					if known.id != cur.id {
+						r.Add("monitor_cond_since_found_true_nonempty_difference", 1)
+					}
+				} else {
+					result = []interface{}{false, cur.id, rep.Result[2]}
+				}
+				b, err := json.Marshal(map[string]interface{}{"id": json.RawMessage(m.ID), "result": result, "error": nil})
+				if err != nil {
+					panic(err)
+				}
+				return b
+			}
+			return nil
+		}
+	}
 	feature := fmt.Sprintf("%s.mon%d", s.Method, s.Monitors)
 	cse := func(msg string) interface{} {
 		return map[string]interface{}{"session": s.String(), "msg": msg, "messages": summarize(px.Messages())}
@@ -158,7 +264,7 @@ func c16Run(r *ev.Run, s c16Session, record bool) (msgs []e2e.Msg) {
 					awayDone = true
 					for i, a := range away {
 						if s.Away&(1<<i) != 0 {
-							if res, err := env.Sys.TransactRef(a); err != nil || len(res) != len(a) {
+							if res, err := txn(a); err != nil || len(res) != len(a) {
 								panic(fmt.Sprint("away transaction failed", res, err))
 							}
 						}
@@ -222,7 +328,7 @@ func c16Run(r *ev.Run, s c16Session, record bool) (msgs []e2e.Msg) {
 				awayDone = true
 				for i, a := range away {
 					if s.Away&(1<<i) != 0 {
-						env.Sys.TransactRef(a)
+						txn(a)
 					}
 				}
 				px.SetAccept(true)
@@ -239,7 +345,7 @@ func c16Run(r *ev.Run, s c16Session, record bool) (msgs []e2e.Msg) {
 		ok := false
 		for try := 0; try < 4 && !ok; try++ {
 			m := c.NewMonitor()
-			m.Method = s.Method
+			m.Method = method
 			var tn []string
 			for t := range c16Mons[mi] {
 				tn = append(tn, t)
@@ -266,7 +372,7 @@ func c16Run(r *ev.Run, s c16Session, record bool) (msgs []e2e.Msg) {
 		}
 	}
 	// 2. another client's transaction
-	if res, err := env.Sys.TransactRef(t1); err != nil || len(res) != len(t1) {
+	if res, err := txn(t1); err != nil || len(res) != len(t1) {
 		panic(fmt.Sprint("t1 failed", res, err))
 	}
 	if !doSettle("t1") {
@@ -274,13 +380,15 @@ func c16Run(r *ev.Run, s c16Session, record bool) (msgs []e2e.Msg) {
 	}
 	// 3. the client's own transaction with a unique marker
 	tctx, tcancel := context.WithTimeout(context.Background(), 10*time.Second)
+	begin()
 	res, terr := c.Transact(tctx, sys.ToOvsOp(ref, marker))
 	tcancel()
+	commit()
 	if !doSettle("own-transact") {
 		return px.Messages()
 	}
 	// 4. one more
-	if res, err := env.Sys.TransactRef(t2); err != nil || len(res) != len(t2) {
+	if res, err := txn(t2); err != nil || len(res) != len(t2) {
 		panic(fmt.Sprint("t2 failed", res, err))
 	}
 	if !doSettle("t2") {
@@ -311,7 +419,7 @@ func c16Run(r *ev.Run, s c16Session, record bool) (msgs []e2e.Msg) {
 	r.Distinct("outcomes", fmt.Sprintf("transact-ok=%v markers=%d", succeeded, markers))
 	// all monitors still registered on the server: a further transaction reaches the cache
 	probe := []rm.Op{opUpdate("R", uR[0], rm.Row{"imm": rm.SetOf(rm.S(""))}), opUpdate("N1", uN1[1], rm.Row{"name": rm.SetOf(rm.S("final"))}), opUpdate("R", uR[0], rm.Row{"cnt": rm.SetOf(rm.I(99))})}
-	if _, err := env.Sys.TransactRef(probe); err == nil && doSettle("probe") {
+	if _, err := txn(probe); err == nil && doSettle("probe") {
 		if d := c01Compare(ref, e2e.CacheState(ref, c), env.Sys.State(), monitored); d != "" {
 			r.Violation("c16.monitor-lost."+feature, fmt.Sprintf("[%s] a transaction committed after the resynchronisation does not reach the cache:\n%s", s, d), cse(d))
 		}
@@ -337,7 +445,7 @@ func summarize(ms []e2e.Msg) []string {
 func runC16(r *ev.Run) {
 	r.Set("rule", "session = connect, 1-2 monitors, a transaction by another client, the client's own marker transaction, another transaction; fault = the proxy closes both sides before (thorough: also right after) message k, for every message k of the fault-free session; while the client is away a subset of {insert, modify, delete of cached rows} is committed; then cache == database on every monitored table, a later transaction still reaches the cache, and the marker row exists exactly once if Transact returned results, at most once if it returned an error; non-trivial = session with a cut")
 	r.Assume("reconnection is awaited without sleeping: the proxy has forwarded the schema reply and one reply per registered monitor on a newer connection, then Connected() (which blocks on the client's rpc lock until connect() finished) is called; 15 s watchdog")
-	r.Assume("monitor_cond_since is exercised with the in-tree server only (found=false); found=true / update3 need a scripted peer and are not covered")
+	r.Assume("monitor_cond_since with found=true and update3 are produced by the proxy on top of the in-tree server (method monitor_cond_since+ids): transaction ids, update3, and the difference since a known id computed from recorded reference-model states")
 	var sessions []c16Session
 	defer e2e.Cleanup()
 	if one := os.Getenv("VERIF_C16_ONE"); one != "" {
@@ -373,7 +481,7 @@ func runC16(r *ev.Run) {
 	} else {
 		r.SetDeadline(300 * 1e9)
 	}
-	methods := []string{ovsdb.MonitorRPC, ovsdb.ConditionalMonitorRPC, ovsdb.ConditionalMonitorSinceRPC}
+	methods := []string{ovsdb.MonitorRPC, ovsdb.ConditionalMonitorRPC, ovsdb.ConditionalMonitorSinceRPC, ovsdb.ConditionalMonitorSinceRPC + "+ids"}
 	aways := []int{0, 7}
 	if r.Tier == "thorough" {
 		aways = []int{0, 1, 2, 3, 4, 5, 6, 7}
@@ -408,7 +516,7 @@ func runC16(r *ev.Run) {
 				}
 			}
 			// double faults: second cut inside the reconnect handshake
-			if r.Tier == "thorough" || (nm == 2 && m != ovsdb.MonitorRPC) {
+			if r.Tier == "thorough" || (nm == 2 && m != ovsdb.MonitorRPC) || strings.HasSuffix(m, "+ids") {
 				for k := 4; k < n; k += 3 {
 					for k2 := 0; k2 < 6+2*nm; k2++ {
 						sessions = append(sessions, c16Session{Method: m, Monitors: nm, Away: 7, Cut: k, Cut2: k2})
